@@ -13,26 +13,26 @@ import (
 // ---- read-only query operations shared by C14 (bursts) and C13 (histories) ----------------
 
 const (
-	QContainsPoint   = iota // Loop/Polygon.ContainsPoint, index: ContainsPointQuery.Contains
-	QContainsCell           // Loop/Polygon.ContainsCell
-	QIntersectsCell         // Loop/Polygon.IntersectsCell
-	QRelContains            // Loop.Contains(Loop) / Polygon.Contains(Polygon)
-	QRelIntersects          // Loop.Intersects(Loop) / Polygon.Intersects(Polygon)
-	QContainingShapes       // index: ContainsPointQuery.ContainingShapes
-	QShapeContains          // index: ContainsPointQuery.ShapeContains
-	QCrossings              // index: CrossingEdgeQuery.Crossings
-	QCrossingsMap           // index: CrossingEdgeQuery.CrossingsEdgeMap
-	QFindEdges              // index: EdgeQuery.FindEdges
-	QDistance               // index: EdgeQuery.Distance
-	QIsDistLess             // index: EdgeQuery.IsDistanceLess / IsDistanceGreater
-	QIsConsDist             // index: IsConservativeDistanceLessOrEqual / GreaterOrEqual
-	QWalk                   // index: iterate all cells
-	QRegionBound            // index: Region().CellUnionBound / CapBound
-	QBuild                  // index: Build()
-	QIsFreshNumEdges        // index: NumEdges() (IsFresh is schedule dependent: executed, not compared)
-	QLocate                 // index: Iterator().LocatePoint / LocateCellID
-	QMisc                   // Loop/Polygon: Area, Centroid, TurningAngle, NumEdges, edges, Validate; index: shapes' reference points, End()/Prev walk
-	QBounds                 // Loop/Polygon: RectBound, CapBound, CellUnionBound
+	QContainsPoint    = iota // Loop/Polygon.ContainsPoint, index: ContainsPointQuery.Contains
+	QContainsCell            // Loop/Polygon.ContainsCell
+	QIntersectsCell          // Loop/Polygon.IntersectsCell
+	QRelContains             // Loop.Contains(Loop) / Polygon.Contains(Polygon)
+	QRelIntersects           // Loop.Intersects(Loop) / Polygon.Intersects(Polygon)
+	QContainingShapes        // index: ContainsPointQuery.ContainingShapes
+	QShapeContains           // index: ContainsPointQuery.ShapeContains
+	QCrossings               // index: CrossingEdgeQuery.Crossings
+	QCrossingsMap            // index: CrossingEdgeQuery.CrossingsEdgeMap
+	QFindEdges               // index: EdgeQuery.FindEdges
+	QDistance                // index: EdgeQuery.Distance
+	QIsDistLess              // index: EdgeQuery.IsDistanceLess / IsDistanceGreater
+	QIsConsDist              // index: IsConservativeDistanceLessOrEqual / GreaterOrEqual
+	QWalk                    // index: iterate all cells
+	QRegionBound             // index: Region().CellUnionBound / CapBound
+	QBuild                   // index: Build()
+	QIsFreshNumEdges         // index: NumEdges() (IsFresh is schedule dependent: executed, not compared)
+	QLocate                  // index: Iterator().LocatePoint / LocateCellID
+	QMisc                    // Loop/Polygon: Area, Centroid, TurningAngle, NumEdges, edges, Validate; index: shapes' reference points, End()/Prev walk
+	QBounds                  // Loop/Polygon: RectBound, CapBound, CellUnionBound
 	NumQKinds
 )
 
